@@ -40,9 +40,10 @@ class C15(Spec):
             # request handed over next is sent before the reset arrives, is the kernel's timing - decided by the oracle only (settled
             # once, own response or rejected, no hang, no crash)
             return True
-        if t[0] == "K" and int(t[2]) > 1 and any(x[0] in "xXz" for x in t[4].split(",")) and not impl.startswith(("CRASH", "HANG")):
-            # several connections and a server that closes some: WHICH queued request is handed to the closing connection
-            # depends on which response arrives first. Compared exactly: the requests that start on fresh connections;
+        if t[0] == "K" and any(x[0] in "xXz" for x in t[4].split(",")) and not impl.startswith(("CRASH", "HANG")):
+            # a server that closes connections: WHICH queued request is handed to the closing connection depends on which response
+            # arrives first, and (since the client repairs of the review round) WHETHER the hand-over still finds it open on whether
+            # the end of stream has been seen by then. Compared exactly: the requests that start on fresh connections;
             # for the others the oracle decides (settled, own response or rejected)
             m = int(t[2])
             fi = dict(x.split("=") for x in impl.split()[1:]); fm = dict(x.split("=") for x in model.split()[1:])
